@@ -40,50 +40,90 @@ def uncps(a):
     return "".join(chr(c) for c in a)
 
 
-def proj(n):
-    """odata_query.ast node -> JSON tree.  Raises Unprojectable for values outside the node classes."""
+def _shape(n):
+    """(tag-prefix, [child nodes], suffix) for one node; children are projected separately (iteratively)."""
     t = type(n)
     if t is ast.Identifier:
-        return ["Id", list(n.namespace), n.name]
+        return ["Id", list(n.namespace), n.name], None
     if t is ast.Attribute:
         if not isinstance(n.attr, str):
             raise Unprojectable("Attribute.attr is %r" % (n.attr,))
-        return ["Attr", proj(n.owner), n.attr]
+        return ["Attr", None, n.attr], [(1, n.owner)]
     if t in LIT:
         k = LIT[t]
         if k == "Null":
-            return ["Lit", "Null", "null"]
+            return ["Lit", "Null", "null"], None
         if not isinstance(n.val, str):
             raise Unprojectable("%s.val is %r" % (k, n.val))
         if k == "Integer":
             try:
                 if str(int(n.val)) == n.val:
-                    return ["Lit", "Integer", int(n.val)]
+                    return ["Lit", "Integer", int(n.val)], None
             except ValueError:
                 pass
-            return ["Lit", "Integer", n.val]
+            return ["Lit", "Integer", n.val], None
         if k == "String":
-            return ["Lit", "String", cps(n.val)]
-        return ["Lit", k, n.val]
+            return ["Lit", "String", cps(n.val)], None
+        return ["Lit", k, n.val], None
     if t is ast.List:
-        return ["List", [proj(x) for x in n.val]]
+        if not isinstance(n.val, list):
+            raise Unprojectable("List.val is %r" % type(n.val))
+        return ["List", [None] * len(n.val)], [((1, i), x) for i, x in enumerate(n.val)]
     if t is ast.BinOp:
-        return ["Bin", BIN[type(n.op)], proj(n.left), proj(n.right)]
+        return ["Bin", BIN[type(n.op)], None, None], [(2, n.left), (3, n.right)]
     if t is ast.Compare:
-        return ["Cmp", CMP[type(n.comparator)], proj(n.left), proj(n.right)]
+        return ["Cmp", CMP[type(n.comparator)], None, None], [(2, n.left), (3, n.right)]
     if t is ast.BoolOp:
-        return ["Bool", BOOL[type(n.op)], proj(n.left), proj(n.right)]
+        return ["Bool", BOOL[type(n.op)], None, None], [(2, n.left), (3, n.right)]
     if t is ast.UnaryOp:
-        return ["Un", UN[type(n.op)], proj(n.operand)]
+        return ["Un", UN[type(n.op)], None], [(2, n.operand)]
     if t is ast.Call:
-        return ["Call", proj(n.func), [proj(x) for x in n.args]]
+        if not isinstance(n.args, list):
+            raise Unprojectable("Call.args is %r" % type(n.args))
+        return ["Call", None, [None] * len(n.args)], [(1, n.func)] + [((2, i), x) for i, x in enumerate(n.args)]
     if t is ast.NamedParam:
-        return ["Named", proj(n.name), proj(n.param)]
+        return ["Named", None, None], [(1, n.name), (2, n.param)]
     if t is ast.Lambda:
-        return ["Lam", proj(n.identifier), proj(n.expression)]
+        return ["Lam", None, None], [(1, n.identifier), (2, n.expression)]
     if t is ast.CollectionLambda:
-        return ["Coll", proj(n.owner), COLL[type(n.operator)], ["None"] if n.lambda_ is None else proj(n.lambda_)]
+        if n.lambda_ is None:
+            return ["Coll", None, COLL[type(n.operator)], ["None"]], [(1, n.owner)]
+        return ["Coll", None, COLL[type(n.operator)], None], [(1, n.owner), (3, n.lambda_)]
     raise Unprojectable("not an AST node: %r" % (n,))
+
+
+def proj(n):
+    """odata_query.ast node -> JSON tree (iterative: trees may be tens of thousands of nodes deep).
+    Raises Unprojectable for values outside the node classes."""
+    root = [None]
+    work = [(root, 0, n)]
+    while work:
+        holder, slot, node = work.pop()
+        try:
+            out, kids = _shape(node)
+        except KeyError as e:
+            raise Unprojectable("unexpected operator node %r" % (e,))
+        if isinstance(slot, tuple):
+            holder[slot[0]][slot[1]] = out
+        else:
+            holder[slot] = out
+        for s, k in (kids or ()):
+            work.append((out, s, k))
+    return root[0]
+
+
+def flat(x):
+    """Iterative pre-order serialisation of a nested JSON value (comparison / hashing of very deep trees)."""
+    out = []
+    work = [x]
+    while work:
+        v = work.pop()
+        if isinstance(v, list):
+            out.append("[%d" % len(v))
+            work.extend(reversed(v))
+        else:
+            out.append(v)
+    return out
 
 
 def build(j):
